@@ -1,8 +1,12 @@
+// Package vbufio: bufio readers/writers whose every use is recorded as a write access to the object
+// (bufio types are not safe for concurrent use: two unordered uses are a data race).
 package vbufio
 
 import (
 	"bufio"
 	"io"
+	"runtime"
+	"strings"
 
 	vrt "verif/rt"
 )
@@ -16,9 +20,69 @@ type Writer struct {
 	tag int
 }
 
-func NewReader(r io.Reader) *Reader { return &Reader{r: bufio.NewReader(r)} }
-func NewWriter(w io.Writer) *Writer { return &Writer{w: bufio.NewWriter(w)} }
+var siteR = vrt.NewSite("bufio.(*Reader) use", "bufio.Reader")
+var siteW = vrt.NewSite("bufio.(*Writer) use", "bufio.Writer")
 
-func (b *Reader) Read(p []byte) (int, error) { vrt.W(&b.tag); return b.r.Read(p) }
-func (b *Writer) Write(p []byte) (int, error) { vrt.W(&b.tag); return b.w.Write(p) }
-func (b *Writer) Flush() error                { vrt.W(&b.tag); return b.w.Flush() }
+// UseSite lets the transformer attribute a use to the calling gldap function.
+func (b *Reader) touch() { b.tag++; vrt.W(&b.tag, siteR) }
+func (b *Writer) touch() { b.tag++; vrt.W(&b.tag, callerSite(siteW, "bufio.Writer")) }
+
+func NewReader(r io.Reader) *Reader            { return &Reader{r: bufio.NewReader(r)} }
+func NewReaderSize(r io.Reader, n int) *Reader { return &Reader{r: bufio.NewReaderSize(r, n)} }
+func NewWriter(w io.Writer) *Writer            { return &Writer{w: bufio.NewWriter(w)} }
+func NewWriterSize(w io.Writer, n int) *Writer { return &Writer{w: bufio.NewWriterSize(w, n)} }
+
+func (b *Reader) Read(p []byte) (int, error)         { b.touch(); return b.r.Read(p) }
+func (b *Reader) ReadByte() (byte, error)            { b.touch(); return b.r.ReadByte() }
+func (b *Reader) UnreadByte() error                  { b.touch(); return b.r.UnreadByte() }
+func (b *Reader) Peek(n int) ([]byte, error)         { b.touch(); return b.r.Peek(n) }
+func (b *Reader) Discard(n int) (int, error)         { b.touch(); return b.r.Discard(n) }
+func (b *Reader) Buffered() int                      { b.touch(); return b.r.Buffered() }
+func (b *Reader) Reset(r io.Reader)                  { b.touch(); b.r.Reset(r) }
+func (b *Reader) ReadString(d byte) (string, error)  { b.touch(); return b.r.ReadString(d) }
+func (b *Reader) ReadBytes(d byte) ([]byte, error)   { b.touch(); return b.r.ReadBytes(d) }
+func (b *Reader) WriteTo(w io.Writer) (int64, error) { b.touch(); return b.r.WriteTo(w) }
+
+func (b *Writer) Write(p []byte) (int, error)         { b.touch(); return b.w.Write(p) }
+func (b *Writer) WriteString(s string) (int, error)   { b.touch(); return b.w.WriteString(s) }
+func (b *Writer) WriteByte(c byte) error              { b.touch(); return b.w.WriteByte(c) }
+func (b *Writer) Flush() error                        { b.touch(); return b.w.Flush() }
+func (b *Writer) Buffered() int                       { b.touch(); return b.w.Buffered() }
+func (b *Writer) Available() int                      { b.touch(); return b.w.Available() }
+func (b *Writer) Size() int                           { return b.w.Size() }
+func (b *Writer) Reset(w io.Writer)                   { b.touch(); b.w.Reset(w) }
+func (b *Writer) ReadFrom(r io.Reader) (int64, error) { b.touch(); return b.w.ReadFrom(r) }
+
+var siteCache = map[[10]uintptr]uint32{}
+
+// callerSite attributes a use to the innermost calling function that belongs to the code under test.
+func callerSite(def uint32, loc string) uint32 {
+	var pcs [10]uintptr
+	n := runtime.Callers(4, pcs[:])
+	if n == 0 {
+		return def
+	}
+	if s, ok := siteCache[pcs]; ok {
+		return s
+	}
+	site := def
+	frames := runtime.CallersFrames(pcs[:n])
+	for {
+		fr, more := frames.Next()
+		if strings.Contains(fr.Function, "gldap") {
+			fn := fr.Function
+			if i := strings.Index(fn, ".func"); i > 0 {
+				fn = fn[:i]
+			}
+			fn = strings.TrimPrefix(fn, "verif/gldapx/")
+			fn = strings.TrimPrefix(fn, "verif/")
+			site = vrt.NewSite(fn, loc)
+			break
+		}
+		if !more {
+			break
+		}
+	}
+	siteCache[pcs] = site
+	return site
+}
